@@ -49,6 +49,10 @@ DOCS = {
   "A11": [st("html"), st("body"), st("div", ' class="x"', True), txlt("if (a ", "< b)"), st("p"), tx("t"), et("p"), et("div"), st("div"), txlt("1 <", " 2"), et("div"), et("body"), et("html")],
   # ~big~ is expanded by the harness to 70 000 highly compressible bytes
   "A12": [st("html"), st("body"), tx("~big~"), st("p"), tx("t"), et("p"), et("body"), et("html")],
+  # upper-case elements carrying the selector's class; a '>' inside a quoted attribute of a target without a selector hit
+  "A13": [st("html", upper=True), st("head", upper=True), st("meta", ' CLASS="x"', True, upper=True), et("head", upper=True), st("body", ' data-if="a > b"', upper=True),
+          st("div", " title='1>0'"), tx("hi"), et("div"), st("p", ' class="x"', True, upper=True), tx("t"), et("p", upper=True), et("body", upper=True), et("html", upper=True)],
+  "A14": [st("html"), st("head"), st("title"), tx("T"), et("title"), et("head"), st("body", ' data-if="a > b"'), st("div", " title='1>0'"), tx("hi"), et("div"), et("body"), et("html")],
   # ---- comments, raw text, malformed, truncated (C03 / C04) ----
   "B1": [st("html"), COPEN, tx(" "), st("body"), tx(" "), CCLOSE, st("body"), tx("x"), et("body"), et("html")],
   "B2": [st("html"), st("head"), st("title"), tx("x "), st("body"), tx(" y"), et("title"), et("head"), st("body"), tx("z"), et("body"), et("html")],
@@ -99,6 +103,13 @@ FILTERS = {
   "F20": "<<>>",
   "F21": fl(("append", ["html", "head", "title"], "none")),
   "F22": fl(("replace", ["html", "head", "title"], "none"), ("append", ["html", "body"], "none")),
+  # selector filters on the body (its start tag may hold a '>'), depth-1 paths, type + class selectors
+  "F23": fl(("prepend", ["html", "body"], "x")),
+  "F24": fl(("append", ["html"], "none")),
+  "F25": fl(("prepend", ["html", "body", "div"], "x"), ("append", ["html", "body", "div"], "x")),
+  "F26": fl(("append", ["html", "head"], "meta")),
+  "F27": fl(("replace", ["html", "body", "p"], "p"), ("prepend", ["html", "body"], "p")),
+  "F28": fl(("append", ["html"], "x"), ("prepend", ["html"], "none")),
 }
 
 def main():
@@ -116,8 +127,8 @@ def main():
     out.append("DocsWell == {%s}" % ", ".join(n for n in DOCS if n.startswith("A")))
     out.append("DocsMessy == {%s}" % ", ".join(n for n in DOCS if n.startswith("B")))
     out.append("FiltersAll == {%s}" % ", ".join(FILTERS))
-    out.append("FiltersQuick == {F1, F2, F3, F4, F5, F6, F8, F10, F11, F12, F16, F21}")
-    out.append("DocsQuick == {A2, A3, A7, A9, A10, A11, B1, B2, B3, B4, B5, B11, B12, B14}")
+    out.append("FiltersQuick == {F1, F2, F3, F4, F5, F6, F7, F8, F10, F11, F12, F16, F21, F23, F24, F25, F26, F27}")
+    out.append("DocsQuick == {A2, A3, A7, A8, A9, A10, A11, A13, A14, B1, B2, B3, B4, B5, B11, B12, B14}")
     out.append("CasesQuick == Prod(DocsQuick, FiltersQuick)")
     out.append("CasesAll == Prod(DocsWell \\cup DocsMessy, FiltersAll)")
     out.append("=============================================================================")
